@@ -146,8 +146,8 @@ def families(tier):
     q = tier == "quick"
     fams = [
         dict(name="nearest", ref="vf.props.c08:h_nearest",
-             params={"k": 3, "m": 2} if q else {"k": 4, "m": 3},
-             bounds="k publications (k<=3 quick, 4 thorough), m non-decreasing requests (2 / 3); gaps >= 1 us",
+             params={"k": 4, "m": 3} if q else {"k": 5, "m": 3},
+             bounds="k publications (4 quick, 5 thorough), 3 non-decreasing requests; gaps >= 1 us",
              must_cover=["served", "refused"]),
     ]
     if not q:
